@@ -5,7 +5,7 @@ import numpy as np
 
 ID = "C20"
 CHECKER = "chk_rebin"
-THEOREMS = ['C20_grid', 'C20_hat_weights', 'C20_hat_weights_bin', 'C20_hat_support', 'C20_is_hat_average', 'C20_is_hat_average_nth', 'C20_inrange', 'C20_constant', 'C20_constant_nth', 'C20_linear', 'C20_between', 'C20_identity_on_grid', 'C20_grid_data_unchanged', 'C20_order_independent']
+THEOREMS = ['C20_grid', 'C20_hat_weights', 'C20_hat_weights_bin', 'C20_hat_support', 'C20_is_hat_average', 'C20_is_hat_average_nth', 'C20_inrange', 'C20_constant', 'C20_constant_nth', 'C20_linear', 'C20_between', 'C20_identity_on_grid', 'C20_grid_data_unchanged', 'C20_order_independent', 'C20_outside_window_irrelevant', 'C20_samples_outside_appended']
 RULE = ("Pre_Proc.rebin on sorted / shuffled / irregular abscissae, points exactly on bin edges and on xmax, out-of-range points, "
         "(xmin, step, xmax) with integer and non-integer (xmax-xmin)/step; non-trivial = some y non-zero and every bin filled; "
         "distinct by input hash")
